@@ -17,11 +17,13 @@ import (
 	"sync"
 	gotime "time"
 
+	abci "github.com/cometbft/cometbft/abci/types"
 	cmtproto "github.com/cometbft/cometbft/proto/tendermint/types"
 
 	sdk "github.com/cosmos/cosmos-sdk/types"
 
 	band "github.com/bandprotocol/chain/v3/app"
+	bandtesting "github.com/bandprotocol/chain/v3/testing"
 	bandtsstypes "github.com/bandprotocol/chain/v3/x/bandtss/types"
 	feedstypes "github.com/bandprotocol/chain/v3/x/feeds/types"
 	oracletypes "github.com/bandprotocol/chain/v3/x/oracle/types"
@@ -232,6 +234,18 @@ func run(r *engine.Run) {
 			continue
 		}
 		paths = append(paths, mkPath(plain, idxPlain, g.Name, ""))
+	}
+	// double-sign evidence against each validator, for an infraction at the height of the delegator's redelegation, on a
+	// base where that delegator's whole power is locked (slashing reaches into the redelegated stake)
+	slash := twin.BuildBase("slash", prepSlash)
+	idxSlash := byName(Alphabet(slash.Info))
+	for vi, v := range bandtesting.Validators {
+		ps := mkPath(slash, idxSlash, "", "")
+		ps.names = []string{fmt.Sprintf("evidence:duplicate-vote:v%d@redelegation-height", vi), ""}
+		ps.blocks[0].Misbehavior = []abci.Misbehavior{{Type: abci.MisbehaviorType_DUPLICATE_VOTE,
+			Validator: abci.Validator{Address: v.PubKey.Address(), Power: []int64{100, 1, 99}[vi]},
+			Height:    slash.Info["redelegation_height"].(int64), Time: slash.Info["redelegation_time"].(gotime.Time), TotalVotingPower: 200}}
+		paths = append(paths, ps)
 	}
 	// empty blocks under every last-commit voting-power vector over {1,2,5,8}^3 (reward allocation arithmetic)
 	for _, a := range []int64{1, 2, 5, 8} {
